@@ -104,9 +104,22 @@ def linearize(e, subst=None, ren=None):
 # a constraint is a Lin L meaning  L >= 0
 
 
+def _impure(e):
+    """contains ++/--/assignment: its value is not a stable atom"""
+    from .facts import walk
+    for n in walk(e):
+        if n["k"] == "un" and n["op"] in ("post++", "pre++", "post--", "pre--"):
+            return True
+        if n["k"] == "bin" and n["op"] in ("=", "+=", "-=", "*=", "/=", "|=", "&=", "^=", "<<=", ">>=", "%="):
+            return True
+    return False
+
+
 def cmp_constraints(cond, truth, subst=None, ren=None):
     """Constraints (list of Lin >= 0) implied by `cond` having the given truth, or []
     when nothing linear follows (e.g. a disequality)."""
+    if _impure(cond):
+        return []
     if cond["k"] == "un" and cond["op"] == "!":
         return cmp_constraints(cond["e"], not truth, subst, ren)
     if cond["k"] == "bin" and cond["op"] in ("<", "<=", ">", ">=", "==", "!="):
